@@ -40,12 +40,6 @@
 using embedded_pairing::bls12_381::Encoding;
 
 namespace embedded_pairing::wkdibe {
-    /* We need this because #include <endian.h> is not portable. */
-    static inline uint32_t uint32_swap_endianness(uint32_t x) {
-        uint32_t temp = (x << 16) | (x >> 16);
-        return ((temp & 0x00FF00FFu) << 8) | ((temp & 0xFF00FF00u) >> 8);
-    }
-
     template <bool compressed>
     struct ParamsMarshalled {
         uint8_t signature;
@@ -241,10 +235,15 @@ namespace embedded_pairing::wkdibe {
         return true;
     }
 
+    /*
+     * The index is stored as four bytes (big-endian) rather than as a
+     * uint32_t: marshalled free slots are packed back to back at odd offsets,
+     * so a uint32_t member would be accessed misaligned.
+     */
     template <bool compressed>
     struct FreeSlotMarshalled {
         Encoding<G1Affine, compressed> hexp;
-        uint32_t idx;
+        uint8_t idx[4];
     };
 
     template <bool compressed>
@@ -255,7 +254,10 @@ namespace embedded_pairing::wkdibe {
         hexpaffine.from_projective(this->hexp);
         encoded->hexp.encode(hexpaffine);
 
-        encoded->idx = uint32_swap_endianness(this->idx);
+        encoded->idx[0] = (uint8_t) (this->idx >> 24);
+        encoded->idx[1] = (uint8_t) (this->idx >> 16);
+        encoded->idx[2] = (uint8_t) (this->idx >> 8);
+        encoded->idx[3] = (uint8_t) this->idx;
     }
 
     template <bool compressed>
@@ -268,7 +270,7 @@ namespace embedded_pairing::wkdibe {
         }
         this->hexp.from_affine(hexpaffine);
 
-        this->idx = uint32_swap_endianness(encoded->idx);
+        this->idx = (((uint32_t) encoded->idx[0]) << 24) | (((uint32_t) encoded->idx[1]) << 16) | (((uint32_t) encoded->idx[2]) << 8) | ((uint32_t) encoded->idx[3]);
         return true;
     }
 
